@@ -24,7 +24,7 @@ EXTENDS Scope, Json, SequencesExt
 
 CONSTANTS MaxLen,      \* items after which the program only winds down
           Deep,        \* TRUE: descend to MaxDepth before any scope is closed (deep-nesting programs)
-          Feat         \* set of enabled features: "macro","label","proto","for","fwd","func","funcx","stmt","linkage","tdspec"
+          Feat         \* set of enabled features: "macro","label","proto","for","fwd","func","funcx","stmt","linkage","tdspec","nest"
 
 VARIABLES stack,       \* scope ids, innermost last
           kinds,       \* parallel to stack: "file" "func" "block" "for" "forbody" "proto"
@@ -144,6 +144,23 @@ DeclTag(n, k, fwd) ==       \* struct n { ... };   or the forward declaration  s
          mem == [i \in 1..Len(tds) |-> [name |-> tds[(i % Len(tds)) + 1], ts |-> tds[i], tsid |-> Visible(top, "decl", tds[i])]]
      IN Emit1([op |-> IF fwd THEN "fwd" ELSE "decl", ns |-> "tag", kind |-> k, name |-> n, id |-> NewId, mem |-> mem])
   /\ Same(<<nsc, nid, stack, kinds, macros, labels, gotos, down, done>>)
+  /\ since' = since + 1
+
+\* struct n { ...; struct t { ... } b; char e_[sizeof(enum { e = .. })]; };   A member list is not a scope: the tag t and
+\* the enumeration constant e declared inside it belong to the scope that encloses the struct specifier (6.2.1p4, p7)
+\* and stay visible after the closing brace.  The two items following the struct item are rendered inside its member list.
+DeclTagNest(n, t, e) ==
+  /\ ~done /\ Room /\ F("nest") /\ PlainCtx /\ ~InProto
+  /\ t # n
+  /\ ~DHas(sc[top].tag, n) /\ ~DHas(sc[top].tag, t) /\ ~DHas(sc[top].decl, e)
+  /\ ~ObjMacroOn(n) /\ ~ObjMacroOn(t) /\ ~ObjMacroOn(e)
+  /\ kind = "file" => LinkId(e) = NULL
+  /\ sc' = [sc EXCEPT ![top].tag = DPut(DPut(@, n, NewId), t, NewId + 1), ![top].decl = DPut(@, e, NewId + 2)]
+  /\ ent' = ent \o <<"struct", "struct", "enum">>
+  /\ prog' = prog \o <<[op |-> "decl", ns |-> "tag", kind |-> "struct", name |-> n, id |-> NewId, mem |-> <<>>, nest |-> 2],
+                       [op |-> "decl", ns |-> "tag", kind |-> "struct", name |-> t, id |-> NewId + 1, mem |-> <<>>],
+                       [op |-> "decl", ns |-> "decl", kind |-> "enum", name |-> e, id |-> NewId + 2]>>
+  /\ Same(<<nsc, nid, stack, kinds, macros, labels, gotos, incomplete, down, done>>)
   /\ since' = since + 1
 
 CompleteTag(n) ==           \* struct n { ... };  in the scope that holds the forward declaration: same entity
@@ -389,6 +406,7 @@ Turn ==                     \* Deep: bottom reached or no way further down: star
 
 CNext ==
   \/ \E n \in Names, k \in {"obj", "typedef", "enum", "param"} : DeclOrd(n, k)
+  \/ \E n \in Names, t \in Names, e \in Names : DeclTagNest(n, t, e)
   \/ \E n \in Names, k \in {"xobj", "xfunc"} : DeclLinked(n, k)
   \/ \E n \in Names, m \in Names, k \in {"obj", "typedef", "tparam"} : DeclTD(n, m, k)
   \/ \E n \in Names, k \in {"struct", "union"}, f \in BOOLEAN : DeclTag(n, k, f)
